@@ -53,17 +53,23 @@ Definition pget (ps : probs) (i : N) : N :=
   match PM.find (pkey i) ps with Some p => p | None => PROB_INIT end.
 Definition pset (ps : probs) (i : N) (v : N) : probs := PM.add (pkey i) v ps.
 
-(** decode one adaptive bit: returns (bit, rc', probs') *)
-Definition rc_bit (r : rc) (ps : probs) (i : N) : bool * rc * probs :=
+(** decode one bit with probability [p] (of the bit being 0, scaled by 2^11) *)
+Definition rc_decode_bit (r : rc) (p : N) : bool * rc :=
   let r := rc_normalize r in
-  let p := pget ps i in
   let bound := (rrange r / BITMODEL_TOTAL) * p in
   if rcode r <? bound then
-    (false, {| rrange := bound; rcode := rcode r; rin := rin r; rused := rused r; rfail := rfail r |},
-     pset ps i (p + (BITMODEL_TOTAL - p) / 32))
+    (false, {| rrange := bound; rcode := rcode r; rin := rin r; rused := rused r; rfail := rfail r |})
   else
-    (true, {| rrange := rrange r - bound; rcode := rcode r - bound; rin := rin r; rused := rused r; rfail := rfail r |},
-     pset ps i (p - p / 32)).
+    (true, {| rrange := rrange r - bound; rcode := rcode r - bound; rin := rin r; rused := rused r; rfail := rfail r |}).
+
+(** adaptive probability update *)
+Definition prob_update (p : N) (b : bool) : N := if b then p - p / 32 else p + (BITMODEL_TOTAL - p) / 32.
+
+(** decode one adaptive bit: returns (bit, rc', probs') *)
+Definition rc_bit (r : rc) (ps : probs) (i : N) : bool * rc * probs :=
+  let p := pget ps i in
+  let '(b, r') := rc_decode_bit r p in
+  (b, r', pset ps i (prob_update p b)).
 
 Definition rc_direct1 (r : rc) : bool * rc :=
   let r := rc_normalize r in
